@@ -5,6 +5,7 @@
  - a loop that calls a callable object and a false invariant about it -> must NOT be proved (write-set of calls)
  - an off-by-one result                                               -> must NOT be proved (failed or unknown)
  - a contract-less straight-line helper is inlined: right one proved, wrong one refuted with a counterexample
+ - interned string literals: a dispatch on the right literal is proved, on a misspelt literal refuted
 Run by ./check C20 on every tier; a wrong outcome is a checker defect (exit 3)."""
 import os, subprocess, sys, json
 V = os.path.dirname(os.path.dirname(os.path.abspath(__file__)))
@@ -44,6 +45,10 @@ def run():
         bad.append(f"smaller_inlined (helper inlining): {out.get('smaller_inlined')}")
     if "failed" not in out.get("smaller_inlined_wrong", []):
         bad.append(f"smaller_inlined_wrong: a wrong inlined helper was not refuted: {out.get('smaller_inlined_wrong')}")
+    if set(out.get("pick_name", [])) != {"discharged"}:
+        bad.append(f"pick_name (interned string literals): {out.get('pick_name')}")
+    if "failed" not in out.get("pick_name_wrong", []):
+        bad.append(f"pick_name_wrong: a misspelt string literal was not refuted: {out.get('pick_name_wrong')}")
     return bad
 
 
